@@ -59,6 +59,8 @@ type Prop struct {
 	Record func(tier string, seed int64, emit func(interface{}))
 	// Serial: replay cases one at a time (stateful or process-global effects)
 	Serial bool
+	// Prepare is called with the case file before replay (e.g. to read header cases)
+	Prepare func(path string)
 }
 
 var registry = map[string]*Prop{}
@@ -84,6 +86,9 @@ func clip(b []byte, n int) json.RawMessage {
 }
 
 func replayMain(p *Prop, casesPath, sumPath string) {
+	if p.Prepare != nil {
+		p.Prepare(casesPath)
+	}
 	f, err := os.Open(casesPath)
 	if err != nil {
 		fatal("open cases: %v", err)
